@@ -23,6 +23,18 @@ CHECKS = {
         note="Trusted: SimMDP tables; successor of a done step matched existentially; built-in environments are covered by the rollout scenario (C02) only for space membership.",
         ref="5 (C01)",
     ),
+    "C12": dict(
+        oracle="non-interference under node-perturbation faults (bit-identical other nodes), vmapped-vs-single collection equality, eager/vmap/jit mode equality",
+        text="Fault injection on one parallel environment node of the real vectorised on-/off-policy iteration with bit-for-bit comparison of all other nodes; the vmapped collect_rollout call compared with N single-environment calls from the same keys and start states; the same step executed eagerly, vmapped and jitted. Exploration.",
+        note="First sentence decided on states reached by simulated runs of SimMDP wrapper stacks (built-in environments: rollout scenario).",
+        ref="5 (C12)",
+    ),
+    "C16": dict(
+        oracle="safety invariant at the environment seam (poison state) plus shadow queries in key-less / keyed / epsilon-greedy modes along simulated episodes",
+        text="Masks are offered by the simulated environment and change with its state; at every step the table policies and the real MLP actor-critic / Q policies are queried in all modes; no masked action may be returned or executed, key-less = mode of the reported masked law, keyed log-prob matches, epsilon bound as a count. Exploration.",
+        note="Invariants over simulated interactions; the all-masks x all-parameters identity is not claimed. Hoeffding slack 1e-12 over 4096 keys.",
+        ref="5 (C16)",
+    ),
     "C13": dict(
         oracle="twin refinement of wrapped vs inner environment through RefStack (declared change only), TimeLimit history oracle, construction/space/pass-through checks, adapter peer-history equality",
         text="All 11 documented wrappers in random stacks (depth 0..4) over drawn finite MDPs: functional components and step/reset compared with the inner environment under the declared change only; exact TimeLimit; every documented wrapper constructible. Exploration.",
